@@ -608,6 +608,23 @@ def reduce_cases(rng: random.Random, n: int):
     return out
 
 
+def _large_magnitudes(c, data) -> bool:
+    """Does the case reach the magnitudes of the recorded onnxruntime kernel findings?  sum/prod: the exact accumulated
+    magnitude of some reduced slice (after the cast to an unsigned accumulator) is >= 2**53 (the int64 kernels accumulate
+    in floating point); min/max: an element >= 2**31 in magnitude (the kernels compare the low 32 bits)."""
+    if data.dtype == np.bool_ or not data.size:
+        return False
+    vals = data.astype(object)
+    if c["acc"] and np.dtype(c["acc"]).kind == "u":
+        vals = vals % (2 ** (8 * np.dtype(c["acc"]).itemsize))
+    mags = np.abs(vals)
+    if c["fn"] in ("sum", "prod"):
+        ax = c["axis"]
+        red = (np.sum if c["fn"] == "sum" else np.prod)(mags, axis=ax)
+        return int(np.max(np.asarray(red, dtype=object))) >= 2 ** 53
+    return int(mags.max()) >= 2 ** 31
+
+
 def run_reduce(ctx, n: int, styles=("static", "symbolic", "none"), label="reduce"):
     rng = random.Random(f"tgraph/{label}/{ctx.seed}")
     cases = reduce_cases(rng, n)
@@ -682,7 +699,7 @@ def run_reduce(ctx, n: int, styles=("static", "symbolic", "none"), label="reduce
             if ort_ok:
                 ctx.corr_broken("tgraph-eval-vs-onnxruntime/reduce", {"call": line, "shape": list(shp), "lean": a[:300], "onnxruntime": exp[:300]})
             else:
-                big = data.dtype != np.bool_ and data.size and int(np.abs(data.astype(object)).max()) >= 2 ** 31
+                big = _large_magnitudes(c, data)
                 ctx.violation(f"{c['fn']}/{c['acc'] or c['dtype']}/{'large-magnitudes' if big else 'ordinary'}/exported-model-differs-from-numpy",
                               f"{line} on {data.tolist()}: exported model gives {res.tolist()}, NumPy {np.asarray(ref).tolist()} (Lean evaluation of the exported graph: {a[:120]})",
                               {"call": line, "data": data.tolist(), "observed": res.tolist(), "expected": np.asarray(ref).tolist()})
